@@ -65,7 +65,7 @@ def plan(tier, seed):
     specs += [{"part": "register", "what": w} for w in ("awkward", "numba", "awkward-then-ops")]
     mods = sorted(["planar", "spatial", "lorentz"])
     specs += [{"part": "failpoints", "pkg": p} for p in mods]
-    specs += [{"part": "threads", "mode": m, "rep": k} for m in ("whole", "partition", "lazy-import") for k in range(2 if tier == "quick" else 6)]
+    specs += [{"part": "threads", "mode": m, "rep": k} for m in ("whole", "partition", "contend", "lazy-import") for k in range(2 if tier == "quick" else 6)]
     return specs
 
 
@@ -234,8 +234,39 @@ def run_state(spec, tier, seed, res):
         if full_now != full0:
             res.violation(f"C20/deep-process-state-changed config={cfg}", {"after_operation": op.name, "diff": _first_diff(full0, full_now)})
             full0 = full_now
-    # constructors and other non-dispatch entry points
+    # operator and NumPy-function spellings, with arguments that return and arguments that raise, on every backend
     import vector
+    rr = gen.rng(seed, "C20ops", cfg)
+    for dim in (2, 3, 4):
+        system = R.SYSTEMS[dim][rr.randrange(len(R.SYSTEMS[dim]))]
+        rows = []
+        while len(rows) < 4:
+            rv, _ = gen.vec4(rr, core=True) if dim == 4 else gen.vec(rr, dim, core=True)   # 4-D: timelike and spacelike
+            try:
+                rows.append(LVec(rv, system, True).f64()[0])
+            except R.NotRepresentable:
+                pass
+        for kind in ("object", "numpy", "awkward", "record"):
+            if kind == "object":
+                v = B.mk_obj(system, rows[0], True)
+            elif kind == "numpy":
+                v = B.mk_numpy_cls(system, rows, True)
+            else:
+                arr = awk.build(system, rows, any(B.MOM_SPELL[x] for x in R.field_names(system)), [[0, 1], [], [2, 3]], route="zip")
+                v = arr if kind == "awkward" else arr[0, 0]
+            spellings = {
+                "abs": lambda: abs(v), "**2": lambda: v**2, "**2.5": lambda: v**2.5, "**-1": lambda: v**-1, "numpy.sqrt": lambda: numpy.sqrt(v),
+                "numpy.cbrt": lambda: numpy.cbrt(v), "numpy.power": lambda: numpy.power(v, 1.5), "numpy.square": lambda: numpy.square(v),
+                "neg": lambda: -v, "mul": lambda: v * 2.0, "div": lambda: v / 2.0, "add": lambda: v + v, "sub": lambda: v - v, "eq": lambda: v == v,
+                "**str": lambda: v ** "half", "numpy.power(None)": lambda: numpy.power(v, None), "**list": lambda: v ** [1.0, 2.0, 3.0, 4.0, 5.0],
+                "mul-str": lambda: v * "a", "div-zero": lambda: v / 0, "div-str": lambda: v / "a", "add-number": lambda: v + 3, "matmul-number": lambda: v @ 3,
+                "numpy.add(out=bad)": lambda: numpy.add(v, v, out=(numpy.zeros(3),)), "numpy.power(vector)": lambda: numpy.power(v, v),
+                "numpy.sqrt(out=)": lambda: numpy.sqrt(v, out=(v,)), "pow-3-args": lambda: pow(v, 2, 3), "isclose-bad": lambda: v.isclose(v, rtol="x"),
+                "scale-None": lambda: v.scale(None), "rotateZ-str": lambda: v.rotateZ("a"), "to_Vector4D-conflict": lambda: v.to_Vector4D(t=1, tau=2) if dim < 4 else v.to_Vector4D(),
+            }
+            for name, f in spellings.items():
+                bracket("op:" + name, f"{kind}|{dim}D", f)
+    # constructors and other non-dispatch entry points
     for label, f in (("vector.obj", lambda: vector.obj(x=1.0, y=2.0)), ("vector.obj-invalid", lambda: vector.obj(x=1.0)),
                      ("vector.array", lambda: vector.array({"x": [1.0], "y": [2.0]})), ("vector.array-invalid", lambda: vector.array({"x": [1.0]})),
                      ("vector.zip", lambda: vector.zip({"x": [[1.0]], "y": [[2.0]]})), ("vector.zip-invalid", lambda: vector.zip({"x": [1.0]})),
@@ -491,6 +522,53 @@ def build_call_list(seed, k):
     return calls
 
 
+def build_contention_list(seed, nargs=16, small=False):
+    """calls that share operation, backend and operands but differ in their non-array arguments: threads running them
+    at the same time are inside the same compute function (and the same cached wrappers) with different scalars"""
+    r = gen.rng(seed, "C20contend")
+    calls = []
+    for kind in (("awkward", "numpy") if small else ("awkward", "numpy", "object")):
+        for dim in ((3, 4) if small else (2, 3, 4)):
+            system = R.SYSTEMS[dim][r.randrange(len(R.SYSTEMS[dim]))]
+            rows = []
+            while len(rows) < 4:
+                rv, _ = gen.vec4(r, core=True, causal="timelike", forward=True) if dim == 4 else gen.vec(r, dim, core=True)
+                try:
+                    rows.append(LVec(rv, system, False).f64()[0])
+                except R.NotRepresentable:
+                    pass
+            if kind == "object":
+                v = B.mk_obj(system, rows[0], False)
+                o = B.mk_obj(system, rows[1], False)
+            elif kind == "numpy":
+                v = B.mk_numpy_cls(system, rows, False)
+                o = B.mk_obj(system, rows[1], False)
+            else:
+                v = awk.build(system, rows, False, [[0, 1], [], [2, 3]], route="zip")
+                o = B.mk_obj(system, rows[1], False)
+            fams = [("scale", lambda a, v=v: v.scale(a)), ("rotateZ", lambda a, v=v: v.rotateZ(a)), ("scale2D", lambda a, v=v: v.scale2D(a)),
+                    ("add-scaled-object", lambda a, v=v, o=o: v.add(o.scale(a))), ("isclose-rtol", lambda a, v=v, o=o: v.isclose(o, rtol=a))]
+            if dim >= 3:
+                fams += [("rotateX", lambda a, v=v: v.rotateX(a)), ("rotate_euler", lambda a, v=v: v.rotate_euler(a, 2 * a, 0.5 * a, "yzx")),
+                         ("to_xyz-then-scale3D", lambda a, v=v: v.scale3D(a))]
+            if dim == 4:
+                fams += [("boostZ", lambda a, v=v: v.boostZ(beta=a / 4)), ("boostX-gamma", lambda a, v=v: v.boostX(gamma=1 + a)),
+                         ("is_timelike-tol", lambda a, v=v: v.is_timelike(a)), ("boost_beta3-object", lambda a, v=v: v.boost_beta3(vector_obj3(a)))]
+            if small:
+                fams = fams[::2]
+            for fname, f in fams:
+                for i in range(nargs):
+                    a = 0.125 + 0.0625 * i
+                    calls.append((f"{fname}/{dim}/{kind}/{a}", (lambda f=f, a=a: f(a))))
+    return calls
+
+
+def vector_obj3(a):
+    import vector
+
+    return vector.obj(x=a / 8, y=-a / 16, z=a / 4)
+
+
 def run_threads(spec, tier, seed, res):
     mode = spec["mode"]
     nthreads = 16
@@ -498,7 +576,12 @@ def run_threads(spec, tier, seed, res):
         return run_lazy_import(spec, tier, seed, res)
     tap.install()
     K = 120 if tier == "quick" else 400
-    calls = build_call_list(seed + spec["rep"], K)
+    if mode == "contend":
+        calls = build_contention_list(seed + spec["rep"], small=(tier == "quick"))
+        K = len(calls)
+    else:
+        calls = build_call_list(seed + spec["rep"], K)
+    calls = [(f"{i}:{nm}", f) for i, (nm, f) in enumerate(calls)]
 
     def run_one(f):
         try:
@@ -519,7 +602,8 @@ def run_threads(spec, tier, seed, res):
     calls2 = None
     del calls
     gc.collect()
-    calls = build_call_list(seed + spec["rep"], K)
+    calls = build_contention_list(seed + spec["rep"], small=(tier == "quick")) if mode == "contend" else build_call_list(seed + spec["rep"], K)
+    calls = [(f"{i}:{nm}", f) for i, (nm, f) in enumerate(calls)]
     rebuilt = [fingerprint(run_one(f)) for _, f in calls]
     for i, (a, b) in enumerate(zip(sequential, rebuilt)):
         res.evaluations += 1
@@ -567,9 +651,16 @@ def run_threads(spec, tier, seed, res):
 
     def worker(ti):
         numpy.seterr(divide="warn", over="raise", under="ignore", invalid="warn")  # thread-local in NumPy >= 2 
-        mine = calls if mode == "whole" else calls[ti::nthreads]
+        if mode == "contend":
+            # same 16-call family at the same time in every thread, each thread on a different argument
+            mine = []
+            for g in range(0, len(calls), 16):
+                fam = calls[g:g + 16]
+                mine.extend(fam[(ti + k) % len(fam)] for k in range(len(fam)))
+        else:
+            mine = calls if mode == "whole" else calls[ti::nthreads]
         barrier.wait()
-        out = [fingerprint(run_one(f)) for _, f in mine]
+        out = [(nm, fingerprint(run_one(f))) for nm, f in mine]
         results[ti] = out
         errstates[ti] = dict(numpy.geterr())
 
@@ -593,16 +684,16 @@ def run_threads(spec, tier, seed, res):
         res.inconc("thread stress did not finish within the watchdog")
         return
     want_err = {"divide": "warn", "over": "raise", "under": "ignore", "invalid": "warn"}
+    seq_by_name = {c[0]: fp for c, fp in zip(calls, sequential)}
     for ti in range(nthreads):
-        exp = sequential if mode == "whole" else sequential[ti::nthreads]
-        names = [c[0] for c in (calls if mode == "whole" else calls[ti::nthreads])]
-        res.evaluations += len(exp)
         if results[ti] is None:
             res.violation("C20/thread-died", {"thread": ti})
             continue
-        for i, (a, b) in enumerate(zip(results[ti], exp)):
+        res.evaluations += len(results[ti])
+        for nm, a in results[ti]:
+            b = seq_by_name[nm]
             if a != b:
-                res.violation("C20/concurrent-result-differs-from-sequential", {"call": names[i], "thread": ti, "mode": mode,
+                res.violation("C20/concurrent-result-differs-from-sequential", {"call": nm, "thread": ti, "mode": mode,
                                                                                  "concurrent": repr(a)[:200], "sequential": repr(b)[:200]})
         if errstates[ti] != want_err:
             res.violation("C20/thread-local-numpy-error-state-changed", {"thread": ti, "got": errstates[ti], "expected": want_err})
